@@ -34,7 +34,8 @@ MANIFEST = {
             '  Second session: endings include death by signal; launching also fails right after the spawn (run-time limit registration) and the kill command of the late cancel check can fail inside the work routine.'
             "  Third session: tasks with a start-up limit whose 'started' reports arrive in one burst; the executor's watcher threads must be alive at the end of every history (executor-thread-died)."
             '  Tasks with both a start-up and a generous run-time limit which outlive the start-up limit must end truthfully; a task whose process does not end on its own must be ended by its run-time limit - decided in cycles of the timeout watcher (counting proxy around its lock), not in seconds (left-behind/run-time-limit).'
-            '  A cancel request may be served completely (task killed and handed over by the control thread) before a launch step after the spawn fails.',
+            '  A cancel request may be served completely (task killed and handed over by the control thread) before a launch step after the spawn fails.'
+            '  Burst histories (110-230 tasks in one bulk) hold the watcher inside one pass until the whole bulk is spawned (70%): more tasks wait for one take-over than the watcher takes per pass, none may be left behind.',
     'note': 'observes real threads: a history is reproduced by seed only '
             'statistically (replay re-runs it several times); the 1 s idle '
             'sleep of the timeout watcher is shortened to 20 ms; wall clock '
@@ -250,7 +251,8 @@ def burst_case(rng):
             t['code'] = 0
     return {'seed': rng.randint(0, 2 ** 30), 'spawner': 'POPEN',
             'tasks': tasks, 'perturb': 0.0, 'target': None,
-            'target_delay': 0.0, 'switch': None, 'kind': 'burst'}
+            'target_delay': 0.0, 'switch': None, 'kind': 'burst',
+            'hold_watcher': rng.random() < 0.7}
 
 
 def run(ctx):
